@@ -367,6 +367,9 @@ def r5_selection(ctx):
             if isinstance(t, ast.Compare) and isinstance(t.ops[0], ast.NotIn) and F.is_name(t.left, val.elt.id):
                 A, B = val.generators[0].iter, t.comparators[0]
         if A is None:
+            if isinstance(val, ast.Name) or any(isinstance(n_, ast.Name) and ('@' in n_.id or '#' in n_.id) for n_ in ast.walk(val)):
+                # the result is accumulated in place (a loop the set algebra does not follow): unknown, not wrong
+                raise AnalysisError(f'{at}: valid builds its result in place (`{src(val)[:60]}`): the set-algebra rule does not follow it')
             ctx.violation('R5', at, valid.qualname, 'valid-shape',
                           f'valid returns `{src(val)[:120]}`, expected closure(include) - closure(exclude)')
             continue
